@@ -518,10 +518,14 @@ func (e *env) build(t *testing.T, s scen) (*built, error) {
 	case "tokenfactory.MsgChangeAdmin":
 		na := nm("NewAdmin")
 		denom := fmt.Sprintf("factory/%s/%s", addr(s.Of), s.ID)
-		m := &tokenfactorytypes.MsgChangeAdmin{Denom: denom, NewAdmin: addr(na), Metadata: md}
+		newAdmin := addr(na)
+		if na == -3 {
+			newAdmin = "" // the admin role is renounced
+		}
+		m := &tokenfactorytypes.MsgChangeAdmin{Denom: denom, NewAdmin: newAdmin, Metadata: md}
 		b.msg = m
 		b.fields = []string{"NewAdmin"}
-		b.biz = e.denoms[fmt.Sprintf("%d/%s", s.Of, s.ID)] && s.Creator == s.Of && na >= 0 && na < nActors
+		b.biz = e.denoms[fmt.Sprintf("%d/%s", s.Of, s.ID)] && s.Creator == s.Of && (na == -3 || (na >= 0 && na < nActors))
 		b.run = func(ctx sdk.Context) error { _, err := e.tf.ChangeAdmin(ctx, m); return err }
 	case "paloma.MsgAddLightNodeClientLicense":
 		c := nm("ClientAddress")
@@ -1789,6 +1793,10 @@ func TestCorr(t *testing.T) {
 				runNest(t, run, s, true)
 				continue
 			}
+			if s.Kind == "block" {
+				runBlock(t, run, s, true)
+				continue
+			}
 			runOne(t, run, s, true)
 		}
 	}
@@ -1855,7 +1863,9 @@ func TestCorr(t *testing.T) {
 			continue
 		}
 		if i%4 == 1 {
-			switch (i / 4) % 5 {
+			switch (i / 4) % 6 {
+			case 5:
+				runBlock(t, run, genBlock(run.Rng), false)
 			case 3:
 				runNest(t, run, genNest(run.Rng), false)
 			case 4:
